@@ -132,16 +132,12 @@ def run(ck, facts, tier):
                 ck.ok(R, "visit_domain_goal:FromEnv::Ty")
             else:
                 ck.violation(R, "visit_domain_goal:FromEnv::Ty", vd.where(y["ln"]), "a FromEnv(Ty) hypothesis must elaborate the type")
-        # only FromEnv hypotheses are elaborated: in the match / if-let on DomainGoal every other variant does nothing
-        dm = enum_matches(facts.thir(vd.key), "chalk_ir::DomainGoal")
-        okg = len(dm) == 1
-        if okg:
-            for v in facts.variants("chalk_ir::DomainGoal"):
-                arms = select_arms(dm[0], V(v))
-                body_ = dm[0]["arms"][arms[0][0]]["body"] if arms else None
-                work = body_ is not None and (has_call(body_, "to_program_clauses") or has_call(body_, "visit_with"))
-                if (v == "FromEnv") != bool(work):
-                    okg = False
+        # only FromEnv hypotheses are elaborated: every call that does the work sits behind the FromEnv edge of the test on the
+        # DomainGoal (a path fact: `if let`, `match` with the work in the arm, or `let x = match .. { _ => return }` alike)
+        cfg_v = vd.cfg
+        fe_edges = cfg_v.variant_edges(lambda tr: tr.get("adt") == "chalk_ir::DomainGoal", ["FromEnv"])
+        work_sites = cfg_v.call_blocks("to_program_clauses") + cfg_v.call_blocks("visit_with")
+        okg = bool(fe_edges) and bool(work_sites) and all(cfg_v.must_pass_edges(w_, fe_edges) for w_ in work_sites)
         if okg:
             ck.ok(R, "visit_domain_goal:only-FromEnv")
         else:
